@@ -723,7 +723,11 @@ def rule_body_rules(cm, rep, rid, which, scope=2):
             continue
         if r.get('broken'):
             if _reachable_from_source(cm, r, markers):
-                rep.violation(rid, key, 'this case of compile_body cannot produce code: %s' % '; '.join(r['issues']), where)
+                text = '; '.join(r['issues'])
+                if any(w in text for w in ('getitem<', 'cannot read ', '<?', 'attr:', 'call of ')) and 'has no role' not in text:
+                    # the checker's evaluator could not follow the code (a value it does not model): not a verdict on the code
+                    raise AnalysisError('case %s of compile_body cannot be read as a rewrite rule: %s' % (name, text[:120]))
+                rep.violation(rid, key, 'this case of compile_body cannot produce code: %s' % text, where)
             else:
                 rep.note(rid, 'case %s of compile_body is broken (%s) but no source program reaches it' % (name, '; '.join(r['issues'])), where)
             continue
